@@ -265,37 +265,29 @@ func ruleC01_3(c *Ctx) {
 			}
 		}
 		c.check(okA, R, fn, "empty key set", g.Pos(), "a branch on len(keys), evaluated at 0, leads to a failing continuation", "no branch rejects an empty key map: verification without any key would succeed")
-		// (b) range over the whole key map with VerifySignature(env, value)
-		var rng *ssa.Range
-		for _, b := range g.Blocks {
-			for _, in := range b.Instrs {
-				if r, ok := in.(*ssa.Range); ok && r.X == ssa.Value(keys) {
-					rng = r
-				}
-			}
-		}
-		if rng == nil {
-			c.bad(R, fn, "range over keys", g.Pos(), "the key map parameter is not ranged over")
+		// (b) a loop over the whole key map (range over the map, or over its complete key list) with
+		// VerifySignature(env, element)
+		loops, tails := c.coverLoops(g, keys)
+		if len(loops) == 0 || len(tails) > 0 {
+			c.bad(R, fn, "range over keys", g.Pos(), "no loop visits every element of the key map parameter")
 			continue
 		}
-		c.ok(R, fn, "range over keys", rng.Pos(), "range over parameter "+keys.Name())
-		var next *ssa.Next
-		for _, r := range *rng.Referrers() {
-			if n, ok := r.(*ssa.Next); ok {
-				next = n
-			}
-		}
+		c.ok(R, fn, "range over keys", g.Pos(), "a loop visits every element of parameter "+keys.Name())
 		var vs []ssa.CallInstruction
-		for _, call := range allCalls(g) {
-			cc := call.Common()
-			if cc.IsInvoke() && cc.Method.Name() == "VerifySignature" && cc.Value == ssa.Value(env) {
-				if ex, ok := resolve(cc.Args[0], call).(*ssa.Extract); ok && ex.Tuple == ssa.Value(next) && ex.Index == 2 {
-					vs = append(vs, call)
+		var loop coverLoop
+		for _, l := range loops {
+			for _, call := range allCalls(g) {
+				cc := call.Common()
+				if cc.IsInvoke() && cc.Method.Name() == "VerifySignature" && cc.Value == ssa.Value(env) && l.header.Dominates(call.Block()) && reaches(call.Block(), l.header) {
+					if l.isElem(cc.Args[0]) {
+						vs = append(vs, call)
+						loop = l
+					}
 				}
 			}
 		}
 		if len(vs) == 0 {
-			c.bad(R, fn, "VerifySignature per key", rng.Pos(), "no env.VerifySignature(<range value>) in the loop body")
+			c.bad(R, fn, "VerifySignature per key", g.Pos(), "no env.VerifySignature(<element of the key map>) in the loop body")
 			continue
 		}
 		for _, call := range vs {
@@ -311,9 +303,8 @@ func ruleC01_3(c *Ctx) {
 			c.check(okC, R, fn, "VerifySignature error fails", call.Pos(), "non-nil side is a failing continuation", "a failed signature verification for one key does not fail the guard")
 		}
 		// (d) success only after loop exhaustion
-		okv := extractOf(next, 0)
 		for _, r := range c.nilErrReturns(g) {
-			c.check(okv != nil && c.condAt(okv, false, r.Block()), R, fn, "success return after loop exhaustion", instrPos(r),
+			c.check(loop.exhausted != nil && loop.exhausted(r.Block()), R, fn, "success return after loop exhaustion", instrPos(r),
 				"return nil is dominated by the range-done edge (all keys visited)",
 				"a nil-error return is reachable before every key has been checked (\"any key\" instead of \"all keys\")")
 		}
